@@ -191,6 +191,7 @@ EXT7={
  "C20":" Fresh methods on case-twin paths derived from the document's own parameterised paths.",
 }
 EXT8={
+ "C16":" H3'': two projects over ONE file object (results as alone, the caller's bytes unchanged).",
  "C03":" Map ranges over interface-keyed maps explored as well; the same late path fault in 2..3 interactions; CRLF / CR documents with long descriptions compiled twice from one file object.",
  "C08":" Chains of nested includes whose file names differ in letter case, by a prefix, or by a sub-directory only.",
  "C11":" A type / an enum that only a never-pasted macro declares is undeclared.",
